@@ -42,6 +42,27 @@ CHECKS["C09"] = dict(cat="model_checking", ref="4 C09",
          "with restarts after every block / at single heights / pairs; final dumps must agree and TLC validates every trace against the design window.",
     technique="TLA+ spec of the cache (Ledger.CacheStep/AvgWindow, MC_Restart) + TLC exhaustive + replica comparison + trace validation")
 
+
+def _l(pid, ref, text, technique="TLA+ spec (Ledger/LedgerBlock) + TLC exhaustive (MC_Ledger) + TLC trace validation of real runs"):
+    CHECKS[pid] = dict(cat="model_checking", ref=ref, text=text, technique=technique)
+
+_l("C06", "4 C06", "MC_Ledger proves AtMostOnce / PendingIffHeld over all chains of the block menu with repeated entries; real chains with 100+ duplicate "
+   "placements (same block, next, across unrated blocks, after execution / rejection, while pending) are validated by TLC block by block (relation, holding and "
+   "execution at most once per entry hash, holding window [last rated, h)) and compared with the same chain without duplicates (DupInert).")
+_l("C07", "4 C07", "MC_Ledger proves ConvTiming (executed at the first later rated block, never pending past it) and ValueOK; real conversions over 7 pairs, "
+   "amounts 1..1e11, rates 1..9e15, PIP-10 off/on/switching, gaps in the averaging window are validated exactly (Big.tla): execution height, to_amount, balances.")
+_l("C08", "4 C08", "Sync.tla (TLC, with fairness) proves <>(synced = Tip) and no deadlock given total block application; hostile content (malformed / oversized / "
+   "partial entries on all three chains, repeated entry hashes in every state) is served to the real daemon, which must commit every block (wedge and crash "
+   "detectors); surviving traces are validated by TLC (garbage is inert).", technique="TLA+ spec (Sync.tla liveness, LedgerBlock totality) + TLC + adversarial scenario replay with wedge/crash detection")
+_l("C11", "4 C11", "The pegnet grader module is the oracle for OPR winners, Ledger.tla (SprEligible/SprWinnerIdx) decides staking winners from committed balances; "
+   "OPR/SPR sets of every class for graders V1..V5 / S1..S3 and valid / invalid FCT burn shapes are run on the real node; TLC checks reward and burn deltas, "
+   "pn_winners rows, and that nothing else is credited.")
+_l("C12", "4 C12", "RatesOf (Ledger.tla) states the combination rule per era (1%/0.1%, 10%, 25% bands; PEG zero / equation / floating); every winner combination and "
+   "band position is run on the real node and pn_rate compared; unrated blocks must execute no pending conversion (also ConvTiming in MC_Ledger); a per-height "
+   "digest of all earlier rates is checked after every block (immutability).")
+_l("C13", "4 C13", "MC_Ledger proves AdmissionOK; conversions between all ordered pairs of asset classes at every height around each activation (live and all-era "
+   "schedules), funded and unfunded, with zero rates, are decided by TLC from the observed pre-state at the execution height.")
+
 PENDING = {}
 
 def main():
